@@ -30,6 +30,8 @@ var (
 	opAddA     = MOp{K: "add", PID: 0x100, ST: stH264}
 	opAddB     = MOp{K: "add", PID: 0x101, ST: stAAC, Desc: "lang"}
 	opAddAuto  = MOp{K: "add", PID: 0, ST: stMeta, Desc: "sid"}
+	opAddC     = MOp{K: "add", PID: 0x102, ST: stAAC, Desc: "emptylast"}
+	opAddD     = MOp{K: "add", PID: 0x103, ST: stMeta, Desc: "emptyonly"}
 	opRmA      = MOp{K: "rm", PID: 0x100}
 	opRmB      = MOp{K: "rm", PID: 0x101}
 	opRmX      = MOp{K: "rm", PID: 0x1ff}
@@ -79,7 +81,7 @@ var (
 )
 
 var muxFullAlpha = []MOp{
-	opAddA, opAddB, opAddAuto, opRmA, opRmB, opRmX, opPcrA, opPcrB, opPcrX, opTables,
+	opAddA, opAddB, opAddC, opAddD, opAddAuto, opRmA, opRmB, opRmX, opPcrA, opPcrB, opPcrX, opTables,
 	opDataA1, opDataAfit, opDataAs1, opDataAs2, opDataA3, opDataA17, opDataARAI, opDataAprv, opDataAopc, opDataA0pcr, opDataA0stp, opDataAnor, opDataAhdr,
 	opDataB1, opDataBRAI, opDataAuto, opDataX,
 	opPktNull, opPktOwn, opPktAF, opPktShort, opPktBig, opPktStale, opPktWrap, opPktPriv0, opPktAF252, opDataApr0, opAddMany, opRmMany,
